@@ -10,6 +10,7 @@ import GHEVerif.Lemmas.SearchNested
 import GHEVerif.Lemmas.SearchRowWise
 import GHEVerif.Lemmas.Report
 import GHEVerif.Model.Pipeline
+import GHEVerif.Lemmas.Flow
 
 namespace GHEVerif.C01
 open GHEVerif GHEVerif.Search GHEVerif.Report GHEVerif.Pipeline
@@ -281,6 +282,26 @@ theorem size_after_feasible_selection (x : Rat) (f : Rat → Rat) (lo hi brent t
 
 /-! ### the whole `find_design` pipeline -/
 
+/-- The statements of `GHEManager.find_design` as regenerated from manager.py on this run. -/
+theorem find_design_statements :
+    Gen.findDesignOps = [.startTimer, .search, .computeG, .stopTimer, .size, .ret0] := by decide
+
+/-- Running those statements is: search, then size the selected field on the three-height objective. -/
+theorem findDesign1D_eq_spec (counts : List Nat) (E : Nat → Rat → Rat) (cfg : Cfg)
+    (f : Nat → Rat → Rat) (its : Nat → List Rat) (brent : Nat → Rat) :
+    findDesign1D counts E cfg f its brent = findDesign1DSpec counts E cfg f its brent := by
+  unfold findDesign1D findDesign1DSpec
+  rw [find_design_statements]
+  simp only [runMgr, mgrStep, Bool.false_eq_true, if_false]
+  cases (bisect1D counts E cfg).1 with
+  | valueError => rfl
+  | pyError e => rfl
+  | selected k h p =>
+    simp only [Bool.false_eq_true, if_false, if_true]
+    cases size (f k) cfg.minH cfg.maxH (its k) (brent k) { H := h, simAt := none, returned := 0 } with
+    | error e => rfl
+    | ok st => rfl
+
 /-- End-to-end statement for the flat searches (near-square, rectangle): whenever
     `find_design` returns a design that is not a `continue_if_design_unmet` escape and whose
     selected candidate is feasible at maximum height in the sizing objective as well (the
@@ -299,7 +320,8 @@ theorem find_design_feasible_1D (counts : List Nat) (E : Nat → Rat → Rat) (c
     (hb : 0 < f d.field cfg.minH → BrentSpec (f d.field) cfg.minH cfg.maxH tol (brent d.field))
     (hl : Lipschitz (f d.field) c cfg.minH cfg.maxH) (hct : 0 ≤ c * tol) :
     d.st.simAt = some d.st.H ∧ cfg.minH ≤ d.st.H ∧ d.st.H ≤ cfg.maxH ∧ f d.field d.st.H ≤ c * tol := by
-  unfold findDesign1D at hres
+  rw [findDesign1D_eq_spec] at hres
+  unfold findDesign1DSpec at hres
   generalize hb1 : (bisect1D counts E cfg).1 = o at hres
   cases o with
   | valueError => simp at hres
@@ -351,5 +373,20 @@ example :
     (bisect1D [1, 4, 9, 16] (fun i h => if h = 135 then (3 : Rat) - 2 * i else 10 - 2 * i)
       { cap := none, cont := false, maxIter := 15, minH := 60, maxH := 135 }).1
       = .selected 2 135 .bisection := by decide +kernel
+
+/-- "…and flow specification": every field a search evaluates (either copy of `retrieve_flow`,
+    regenerated from search_routines.py) is handed to the GHE with the REQUESTED system flow — `v·N`
+    for a per-borehole specification, `v` for a system specification — and `BaseGHE.__init__`
+    then simulates each borehole with that system flow divided by the number of boreholes. -/
+theorem evaluated_field_flow_as_requested (c : Flow.Copy) (v rho : Rat) (cs : List (Rat × Rat)) (h : cs ≠ []) :
+    (∃ mb, Flow.retrieveFlow c .borehole v cs rho = .ok (v * (cs.length : Rat), mb) ∧
+        Flow.baseGhe (v * (cs.length : Rat)) cs.length rho = .ok (v, Flow.massFlow v rho)) ∧
+    (∃ mb, Flow.retrieveFlow c .system v cs rho = .ok (v, mb) ∧
+        Flow.baseGhe v cs.length rho = .ok (v / (cs.length : Rat), Flow.massFlow (v / (cs.length : Rat)) rho)) := by
+  have hn : cs.length ≠ 0 := by simpa using h
+  have hq := Flow.length_cast_ne_zero h
+  refine ⟨⟨_, Flow.retrieveFlow_borehole c v cs rho, ?_⟩, ⟨_, Flow.retrieveFlow_system c v cs rho h, ?_⟩⟩
+  · simp [Flow.baseGhe, hn, mul_div_assoc, div_self hq]
+  · simp [Flow.baseGhe, hn]
 
 end GHEVerif.C01
